@@ -32,7 +32,18 @@ def run(ctx):
         if name not in slicer.methods:
             raise AnalysisError(f"Slicer.{name} vanished")
     try:
-        stats, problems = idx.explore(slicer.node)
+        # PlateSlicer wraps the constructor: whatever it does to the parsed selection afterwards is part of the addressing
+        post = None
+        ps = model.classes.get('PlateSlicer')
+        pinit = ps.methods.get('__init__') if ps is not None else None
+        if pinit is not None:
+            body = [st for st in pinit.node.body if not (isinstance(st, ast.Expr) and isinstance(st.value, ast.Constant))]
+            k = [i for i, st in enumerate(body) if any(isinstance(x, ast.Call) and isinstance(x.func, ast.Attribute) and
+                                                        x.func.attr == '__init__' for x in ast.walk(st))]
+            names = pinit.param_names()
+            if k and len(names) == 2 and body[k[0] + 1:]:
+                post = (names[0], names[1], body[k[0] + 1:])
+        stats, problems = idx.explore(slicer.node, post=post)
     except idx.Incomplete as exc:
         raise AnalysisError(f"index typing cannot interpret slicer.py: {exc}") from exc
     init = slicer.methods['__init__']
